@@ -254,7 +254,7 @@ def _light_counters():
 class World:
     """The real pre-processed problem + the reference model + the harness bookkeeping."""
 
-    def __init__(self, layout, kind, sw):
+    def __init__(self, layout, kind, sw, fns=None):
         from gemseo.algos.optimization_problem import OptimizationProblem
         from gemseo.core.mdo_functions.mdo_function import MDOFunction
         from gemseo.core.mdo_functions.mdo_linear_function import MDOLinearFunction
@@ -280,7 +280,7 @@ class World:
             off += size
         self.ds = ds
         self.calls = []  # (role, "func" | "jac") for every call of a user's callable
-        self.fns = {"f": Fn(kind, "f"), "g": Fn(COMPANION[kind], "g"), "o": Fn("quad", "o")}
+        self.fns = fns or {"f": Fn(kind, "f"), "g": Fn(COMPANION[kind], "g"), "o": Fn("quad", "o")}
 
         def make(fn):
             role = fn.role
@@ -370,13 +370,14 @@ class Spec:
         self._points = {}
         self._expect = {}
         self.fast = True  # explore siblings on one World restored from a snapshot (confirmed on a fresh World)
+        self.cross_check_len = 2  # histories of < this many operations are always re-executed from scratch
 
     # -- explorer interface --------------------------------------------------------------------------
     def starts(self):
         return [["start", self.layout_name, self.kind, self.sw, self.alphabet]]
 
     def build(self, hist):
-        w = World(self.lay, self.kind, self.sw)
+        w = World(self.lay, self.kind, self.sw, self.fns)
         for op in hist[1:]:
             self._apply(w, op, check=False)
         w.snapshot()
@@ -542,8 +543,6 @@ class Spec:
 
                 tb = traceback.extract_tb(e.__traceback__)[-1]
                 culprit = reqs[0][0]
-                for fr in traceback.extract_tb(e.__traceback__):
-                    pass
                 w.problems.append(("call-raises", w.fns[culprit].kind if kind != "ef" else None,
                                    f"{op} raised {type(e).__name__}: {str(e)[:200]} (at {tb.filename.split('/')[-1]}:{tb.lineno})"))
             return f"raised:{type(e).__name__}"
@@ -602,13 +601,15 @@ class Spec:
                 if what == "val":
                     probe_calls_allowed = self.approx and (r, "jac") in reqs and ("@" + r) not in recorded_before
                     if rec is not None and n_func > 0 and not probe_calls_allowed:
-                        w.problems.append(("recomputed-recorded-point", fn.kind, f"{op}: {name} is recorded at x={_show(x)} but the user's function was called {n_func} more time(s)"))
+                        dts = self._same_point_keys(db, key)
+                        w.problems.append(("recomputed-recorded-point" if len(dts) < 2 else "recomputed-point-recorded-under-another-dtype", fn.kind, f"{op}: {name} is recorded at x={_show(x)} but the user's function was called {n_func} more time(s)" + (f"; the database now holds this point under keys of dtypes {dts}" if len(dts) > 1 else "")))
                     elif rec is None and n_func > 1 and not self.approx:
                         w.problems.append(("computed-more-than-once", fn.kind, f"{op}: the user's function {r} was called {n_func} times for one new point x={_show(x)}"))
                 elif sw["store_jac"]:
                     value_is_computed_too = (r, "val") in reqs and r not in recorded_before
                     if rec is not None and (n_jac > 0 or (n_func > 0 and not value_is_computed_too)):
-                        w.problems.append(("recomputed-recorded-point", fn.kind, f"{op}: {name} is recorded at x={_show(x)} but the user's callables were called again (func {n_func}, jac {n_jac})"))
+                        dts = self._same_point_keys(db, key)
+                        w.problems.append(("recomputed-recorded-point" if len(dts) < 2 else "recomputed-point-recorded-under-another-dtype", fn.kind, f"{op}: {name} is recorded at x={_show(x)} but the user's callables were called again (func {n_func}, jac {n_jac})" + (f"; the database now holds this point under keys of dtypes {dts}" if len(dts) > 1 else "")))
                     elif rec is None and n_jac > 1:
                         w.problems.append(("computed-more-than-once", fn.kind, f"{op}: the user's Jacobian of {r} was called {n_jac} times for one new point x={_show(x)}"))
 
@@ -619,6 +620,16 @@ class Spec:
                 entry["names"][name] = new
         tag = "hit" if hits == len(reqs) else ("miss" if not hits else "partial")
         return f"{tag}:{'db' if sw['db'] else 'off'}"
+
+    @staticmethod
+    def _same_point_keys(db, x):
+        """The dtypes of the database keys that hold the numbers of ``x``."""
+        out = []
+        for k in db:
+            a = np.asarray(k.wrapped_array)
+            if a.shape == x.shape and np.array_equal(a, x):
+                out.append(a.dtype.name)
+        return out
 
     @staticmethod
     def _db_names(db):
@@ -640,10 +651,10 @@ class Spec:
         out = self._check(w, hist)
         if not self.fast or w.restores == 0:
             return out
-        # safety net of the snapshot/restore shortcut: every violation, and every history of <= 2 operations, is
-        # re-executed on a World built from scratch by replaying the history
-        if out or len(hist) <= 3:
-            fresh = World(self.lay, self.kind, self.sw)
+        # safety net of the snapshot/restore shortcut: every violation, and every history of < cross_check_len operations,
+        # is re-executed on a World built from scratch by replaying the history
+        if out or len(hist) <= self.cross_check_len:
+            fresh = World(self.lay, self.kind, self.sw, self.fns)
             for op in hist[1:-1]:
                 self._apply(fresh, op, check=False)
             if len(hist) > 1:
@@ -680,6 +691,11 @@ class Spec:
             for a, e in zip(karr, model)
         )
         if not same:
+            reals = [np.asarray(a.real, dtype=float).tobytes() for a in karr]
+            if len(set(reals)) < len(reals) and len({(a.dtype.str, a.tobytes()) for a in karr}) == len(karr):
+                dup = next(a for a, r in zip(karr, reals) if reals.count(r) > 1)
+                out.append((sig("db-same-point-under-two-dtypes"), f"db-same-point-under-two-dtypes: the physical point {_show(dup)} is recorded under {reals.count(np.asarray(dup.real, dtype=float).tobytes())} keys of dtypes {[a.dtype.name for a in karr if np.array_equal(a, dup)]} (after {hist[-1]}); keys: {[_show(a) for a in karr]}{tail}"))
+                return out
             out.append((sig("db-keys"), f"db-keys: database keys {[_show(a) for a in karr]}; the physical points requested so far, in order of first record, are {[_show(e['x']) for e in model]} (after {hist[-1]}){tail}"))
             return out
         for k, e in zip(keys, model):
@@ -712,25 +728,27 @@ def _ops(layout, points, ef):
     return ops + [["ef", i, b, m] for i, b, m in ef]
 
 
-def ops_quick(layout):
+def ops_quick(layout, sw=None):
     if layout in SPECIAL:
         return _ops(layout, (1, 2, 3), [(1, 1, "val"), (1, 0, "both"), (3, 1, "jac"), (3, 0, "val")])
     return _ops(layout, (1, 2), [(1, 1, "val"), (1, 0, "both"), (2, 1, "jac")])
 
 
-def ops_wide(layout):
-    return _ops(layout, (1, 2, 3), [(i, b, m) for i in (1, 2, 3) for b in (1, 0) for m in ("val", "both", "jac")])
+def ops_wide(layout, sw=None):
+    return _ops(layout, (1, 2, 3), [(1, 1, "val"), (1, 0, "both"), (1, 1, "jac"), (2, 0, "val"), (2, 1, "both"), (3, 1, "jac"), (3, 0, "val"), (3, 0, "both")])
 
 
-def ops_core(layout):
-    return _ops(layout, (1, 3) if layout in SPECIAL else (1, 2), [(1, 0, "both")])
+def ops_core(layout, sw=None):
+    # one evaluate_functions variant, given in the coordinates the functions do NOT work in (conversion path)
+    b = 0 if (sw is None or sw["norm"]) else 1
+    return _ops(layout, (1, 3) if layout in SPECIAL else (1, 2), [(1, b, "both")])
 
 
 OPSETS = {"quick": ops_quick, "wide": ops_wide, "core": ops_core}
 
 
 def _run_config(case, tally):
-    spec = Spec(case["layout"], case["kind"], case["sw"], OPSETS[case["ops"]](case["layout"]), case["alphabet"])
+    spec = Spec(case["layout"], case["kind"], case["sw"], OPSETS[case["ops"]](case["layout"], case["sw"]), case["alphabet"])
     t = Tally()
     info = explore.bfs(spec, case["depth"], t, jobs=1)
     tally.merge(t)
@@ -741,26 +759,26 @@ def _run_config(case, tally):
         tally.count(f"bfs_state_space_exhausted_before_the_bound[{case['pass']}]")
 
 
-def _switch_vectors(k):
-    """Switch vectors with <= k non-default switches (k=None: the full product), fewest deviations first."""
-    if k is None:
-        sws = [(sum(v != DEFAULTS[a] for a, v in sw.items()), sw) for sw in product.full(SWITCH_AXES)]
-        sws.sort(key=lambda t: t[0])
-        return [sw for _, sw in sws]
-    out = []
-    for sw in product.deviations(SWITCH_AXES, k):
-        sw.pop("_deviations")
-        out.append(sw)
-    return out
+def _switch_vectors(kmin, kmax):
+    """Switch vectors with kmin <= number of non-default switches <= kmax, fewest deviations first."""
+    sws = [(sum(v != DEFAULTS[a] for a, v in sw.items()), sw) for sw in product.full(SWITCH_AXES)]
+    sws = [(d, sw) for d, sw in sws if kmin <= d <= kmax]
+    sws.sort(key=lambda t: t[0])
+    return [sw for _, sw in sws]
 
 
 def _passes(ctx):
+    n = len(SWITCH_AXES)
     if ctx.thorough:
         return [
-            {"pass": "A", "depth": 3, "ops": "wide", "k": None},
-            {"pass": "B", "depth": 4, "ops": "core", "k": None},
+            {"pass": "A", "depth": 3, "ops": "wide", "k": (0, 2)},
+            {"pass": "A'", "depth": 3, "ops": "quick", "k": (3, n)},
+            {"pass": "B", "depth": 4, "ops": "core", "k": (0, n)},
         ]
-    return [{"pass": "A", "depth": 3, "ops": "quick", "k": 2}]
+    return [
+        {"pass": "A", "depth": 3, "ops": "quick", "k": (0, 1)},
+        {"pass": "A'", "depth": 3, "ops": "core", "k": (2, 2)},
+    ]
 
 
 def _drop_subsumed(tally):
@@ -789,7 +807,7 @@ def run(ctx):
     cases, bounds = [], {}
     for ps in _passes(ctx):
         n = 0
-        for sw in _switch_vectors(ps["k"]):  # fewest non-default switches first: the first counter-example is the simplest
+        for sw in _switch_vectors(*ps["k"]):  # fewest non-default switches first: the first counter-example is the simplest
             for layout in LAYOUTS:
                 for kind in KINDS:
                     label = f"{ps['pass']}/{layout}/{kind}/" + ",".join(f"{k}={v}" for k, v in sw.items() if v != DEFAULTS[k])
@@ -797,9 +815,9 @@ def run(ctx):
                         continue
                     cases.append({"pass": ps["pass"], "layout": layout, "kind": kind, "sw": sw, "depth": ps["depth"], "ops": ps["ops"], "alphabet": idx})
                     n += 1
-        bounds[f"pass_{ps['pass']}"] = {
+        bounds["pass_" + ps["pass"]] = {
             "depth": ps["depth"], "configurations": n,
-            "switch_vectors": "full product (128)" if ps["k"] is None else f"<= {ps['k']} non-default switches (34)",
+            "switch_vectors": f"{ps['k'][0]} <= non-default switches <= {ps['k'][1]} ({len(_switch_vectors(*ps['k']))} vectors)",
             "operations": {lay: len(OPSETS[ps["ops"]](lay)) for lay in LAYOUTS},
             "operation_menu": {lay: OPSETS[ps["ops"]](lay) for lay in ("bounded", "equal")},
         }
